@@ -114,6 +114,34 @@ def _search_chunk(args):
     seed, cases, H = args
     return oracles.compare_witness(cases, H, "tel", style_seed=seed)
 
+def lookahead_cases(seed, n):
+    """a formula that is translated for a witness rule, and again — one or two steps later, for an earlier state — for the theory
+    atom of a constraint that looks ahead (`:- a', &tel{F}.` is grounded for state k when state k+1 exists): the late atom must
+    still be tied to the formula's value.  Compared with the brute-force temporal stable models."""
+    r = random.Random(seed)
+    A = lambda x: ("a", x)
+    simple = [A("b"), ("evP", A("b")), ("prev", 1, False, A("b")), ("b", "or", A("b"), ("prev", 1, True, A("a"))), ("since", A("a"), A("b")),
+              ("~", A("b")), ("next", 1, False, A("b")), ("k", "initial"), ("b", "and", ("since", A("a"), A("b")), ("~", A("a")))]
+    out = []
+    for i in range(n):
+        f = r.choice(simple) if i < 2 * len(simple) or r.random() < 0.5 else gen.gen_sform(r, r.randint(1, 2), ATOMS)
+        g = f
+        if f[0] in ("b",) and r.random() < 0.5:
+            g = f[2]                                    # the constraint uses a sub-formula of the witness formula
+        sh = r.choice([1, 1, 2])
+        rules = [("rule", "always", ("choice", "a", "b"), ()),
+                 ("rule", "always", ("atom", "w", 0), (("tel", "notnot", f),)),
+                 ("rule", r.choice(["always", "dynamic", "initial"]), ("falsum",),
+                  (("atom", r.choice(["pos", "not"]), "a", sh), ("tel", r.choice(["pos", "not"]), g)))]
+        if r.random() < 0.3:
+            rules.reverse()
+        out.append(rules)
+    return out
+
+def _lookahead_chunk(args):
+    seed, cases = args
+    return oracles.compare_with_spec(cases, 2, style_seed=seed)
+
 def search(ctx, deep):
     n = (60 if ctx.tier == "quick" else 1200) * (3 if deep else 1)
     depth = 3 if ctx.tier == "quick" else 4
@@ -127,7 +155,10 @@ def search(ctx, deep):
     for f in par.pmap(_search_chunk, work, ctx.jobs):
         fails += f
     fails = [shrink(f) for f in fails[:3]] + fails[3:]
-    stats = {"witness_programs": len(cases), "horizons": "0..{}".format(H), "traces_per_program_and_horizon": "4^(h+1) (all)",
+    la = lookahead_cases(ctx.seed * 197 + 3, max(30, n // 2))
+    for f in par.pmap(_lookahead_chunk, [(ctx.seed + j, c) for j, c in enumerate(par.chunks(la, ctx.jobs))], ctx.jobs):
+        fails += f
+    stats = {"witness_programs": len(cases), "lookahead_constraint_programs": len(la), "horizons": "0..{}".format(H), "traces_per_program_and_horizon": "4^(h+1) (all)",
              "sample": {"program": oracles.witness_program(cases[-1][0], ATOMS, "tel")}}
     return stats, fails
 
